@@ -2,7 +2,7 @@
    wf for the C01 correspondence check.  ExtrOcamlBasic only. *)
 From Coq Require Import ExtrOcamlBasic List NArith.
 From Coq.Strings Require Import Byte.
-From GM Require Import Codec.Packet Codec.WF Codec.Enc Codec.WireSpec.
+From GM Require Import Codec.Packet Codec.WF Codec.Enc Codec.WireSpec Codec.EncJudge.
 Extraction Language OCaml.
 Separate Extraction
   Datatypes.length
@@ -13,4 +13,6 @@ Separate Extraction
   Enc.len_go Enc.encode_go Enc.encode_into Enc.encoder_write Enc.observe Enc.zeros
   Enc.varint_len_go Enc.header_len_go Enc.write_varint Enc.encode_header Enc.write_lp_bytes
   Enc.write_u8 Enc.write_u16 Enc.finish
-  WireSpec.wire_spec WireSpec.remaining_length.
+  WireSpec.wire_spec WireSpec.remaining_length
+  EncJudge.j_len_is_written EncJudge.j_len_spec EncJudge.j_encode_total EncJudge.j_layout EncJudge.j_dirty
+  EncJudge.j_short EncJudge.j_wire_exact EncJudge.j_roundtrip EncJudge.j_stream EncJudge.j_header EncJudge.all_judges.
